@@ -830,3 +830,140 @@ def for_loop_parts(e):
     except (KeyError, IndexError, TypeError):
         return None
     return None
+
+
+# --------------------------------------------------------------------------- HIR path conditions
+
+
+def always_diverges(e):
+    """does this HIR expression always leave the enclosing sequence (return/break/continue/panic)?"""
+    e = strip_refs(e) if isinstance(e, dict) else e
+    if not isinstance(e, dict):
+        return False
+    k = e.get('k')
+    if k in ('ret', 'break', 'continue'):
+        return True
+    if k == 'block':
+        for s in e.get('stmts', []):
+            if s['k'] == 'expr' and always_diverges(s['e']):
+                return True
+        return e.get('tail') is not None and always_diverges(e['tail'])
+    if k == 'if':
+        return 'else' in e and always_diverges(e['then']) and always_diverges(e['else'])
+    if k == 'call' and e.get('ty') == '!':
+        return True
+    if k == 'match':
+        return bool(e['arms']) and all(always_diverges(a['body']) for a in e['arms'])
+    return e.get('ty') == '!' and k in ('call', 'mcall')
+
+
+class PathWalker:
+    """Walks a fn's HIR body; calls visit(node, conds, env) for every expression node.
+    conds: tuple of ('if', cond_expr, polarity) | ('let', pat, init, matched: bool)
+                    | ('arm', scrut_expr, pat, arm_index, all_arm_pats) | ('loop',)
+    env:   dict local-id -> canonical init expr for immutable `let` bindings (hcanon form)."""
+
+    def __init__(self, visit):
+        self.visit = visit
+
+    def walk_fn(self, fn):
+        self.expr(fn.hir['value'], (), {})
+
+    def block(self, b, conds, env):
+        env = dict(env)
+        conds = tuple(conds)
+        for s in b.get('stmts', []):
+            if s['k'] == 'let':
+                if 'init' in s:
+                    self.expr(s['init'], conds, env)
+                pat = s['pat']
+                if 'else' in s:
+                    self.block(s['else'], conds + (('let', pat, s.get('init'), False),), env)
+                    conds = conds + (('let', pat, s.get('init'), True),)
+                if pat.get('k') == 'bind' and 'init' in s and 'Mut' not in pat.get('mode', '') \
+                        and 'mut' not in pat.get('mode', '').lower().replace('bindingmode(no, not)', ''):
+                    env[pat['id']] = hcanon(s['init'], env)
+                elif pat.get('k') == 'bind' and 'init' in s and pat.get('mode', '').endswith('Not)'):
+                    env[pat['id']] = hcanon(s['init'], env)
+            else:
+                e = s['e']
+                self.expr(e, conds, env)
+                ee = strip_refs(e)
+                if ee.get('k') == 'if' and 'else' not in ee and always_diverges(ee['then']):
+                    conds = conds + (('if', ee['cond'], False),)
+                elif ee.get('k') == 'if' and 'else' in ee:
+                    if always_diverges(ee['then']) and not always_diverges(ee['else']):
+                        conds = conds + (('if', ee['cond'], False),)
+                    elif always_diverges(ee['else']) and not always_diverges(ee['then']):
+                        conds = conds + (('if', ee['cond'], True),)
+        if b.get('tail') is not None:
+            self.expr(b['tail'], conds, env)
+
+    def expr(self, e, conds, env):
+        if not isinstance(e, dict) or 'k' not in e:
+            return
+        k = e['k']
+        self.visit(e, conds, env)
+        if k == 'block':
+            self.block(e, conds, env)
+        elif k == 'if':
+            self.expr(e['cond'], conds, env)
+            c = e['cond']
+            cc = strip_refs(c)
+            if cc.get('k') == 'letexpr':
+                self.expr(e['then'], conds + (('let', cc['pat'], cc['init'], True),), env)
+                if 'else' in e:
+                    self.expr(e['else'], conds + (('let', cc['pat'], cc['init'], False),), env)
+            else:
+                self.expr(e['then'], conds + (('if', c, True),), env)
+                if 'else' in e:
+                    self.expr(e['else'], conds + (('if', c, False),), env)
+        elif k == 'match':
+            self.expr(e['scrut'], conds, env)
+            pats = [a['pat'] for a in e['arms']]
+            for i, a in enumerate(e['arms']):
+                c2 = conds + (('arm', e['scrut'], a['pat'], i, pats),)
+                if 'guard' in a:
+                    self.expr(a['guard'], c2, env)
+                    c2 = c2 + (('if', a['guard'], True),)
+                self.expr(a['body'], c2, env)
+        elif k == 'loop':
+            self.block(e['body'], conds + (('loop',),), env)
+        elif k == 'closure':
+            return
+        else:
+            for key, v in e.items():
+                if key in ('k',):
+                    continue
+                if isinstance(v, dict) and 'k' in v:
+                    self.expr(v, conds, env)
+                elif isinstance(v, list):
+                    for x in v:
+                        if isinstance(x, dict):
+                            if 'k' in x:
+                                self.expr(x, conds, env)
+                            elif 'e' in x and isinstance(x['e'], dict):
+                                self.expr(x['e'], conds, env)
+
+
+def flatten_conds(conds, env):
+    """Expand ('if', c, pol) with &&/|| into a list of atom constraints where possible:
+    returns list of (canon_atom, polarity) that all hold (conjunction); disjunctions that cannot
+    be split are kept as (('or', a, b), True)."""
+    out = []
+
+    def add(c, pol):
+        if isinstance(c, tuple) and c and c[0] == 'and' and pol:
+            add(c[1], True)
+            add(c[2], True)
+        elif isinstance(c, tuple) and c and c[0] == 'or' and not pol:
+            add(c[1], False)
+            add(c[2], False)
+        elif isinstance(c, tuple) and c and c[0] == 'un' and c[1] == 'Not':
+            add(c[2], not pol)
+        else:
+            out.append((c, pol))
+    for cd in conds:
+        if cd[0] == 'if':
+            add(hcanon(cd[1], env), cd[2])
+    return out
